@@ -4,6 +4,7 @@ use serde_json::Value;
 
 pub mod c01;
 pub mod c02;
+pub mod c03;
 pub mod c05;
 pub mod c07;
 pub mod c07_sched;
@@ -17,6 +18,7 @@ pub mod c15;
 pub mod c16;
 pub mod c17;
 pub mod c18;
+pub mod nutsref;
 pub mod statsgen;
 
 pub fn level_of(id: &str) -> &'static str {
@@ -30,6 +32,7 @@ pub fn run(id: &str, ctx: &Ctx) -> bool {
     match id {
         "C01" => c01::run(ctx),
         "C02" => c02::run(ctx),
+        "C03" => c03::run(ctx),
         "C05" => c05::run(ctx),
         "C07" => c07::run(ctx),
         "C08" => c08::run(ctx),
@@ -51,6 +54,7 @@ pub fn replay(id: &str, ctx: &Ctx, case: &Value) -> Option<()> {
     match id {
         "C01" => c01::check_case(ctx, case),
         "C02" => c02::check_case(ctx, case),
+        "C03" => c03::check_case(ctx, case),
         "C05" => c05::check_case(ctx, case),
         "C07" => c07::check_case(ctx, case),
         "C08" => c08::check_case(ctx, case),
